@@ -137,6 +137,36 @@ func runEmit(b *runner.Batch, idx int) {
 		}
 		b.Hit("emit-refused:contract-index-beyond-the-committee")
 	}
+	// an Alphabet contract told its Proxy explicitly and left to look Netmap up in the NNS, where another Proxy is
+	// registered under proxy.neofs: what it emits goes to the Proxy it was given (seeded change C19-10: one missing
+	// address making the deployment resolve both)
+	if b.Index%2 == 0 {
+		snd := world.Single(world.Key(b.Seed, b.Index, "alphadeployer", n+7))
+		w.FundGAS(snd.ScriptHash(), 200*gasUnit)
+		p2, err := w.DeployFrom(snd, "proxy-second", b.Set["proxy"], nil)
+		if err == nil && w.RegisterNNS("netmap", util.Uint160{5}) == nil {
+			d, err := w.DeployFrom(snd, "alphabet-mixed", b.Set["alphabet"], []any{false, nil, p2.Hash, "letter-mixed", int64(0), int64(n)})
+			if err != nil {
+				b.Inconclusive("deploy alphabet (Netmap from the NNS, Proxy given): " + err.Error())
+				return
+			}
+			amount := int64(12_3456_7891)
+			w.Invoke([]world.SignerSpec{world.G(user)}, w.GAS, "transfer", user.ScriptHash(), d.Hash, amount, nil)
+			pre2, preReg := w.GASOf(p2.Hash), w.GASOf(proxy)
+			tr := w.Invoke([]world.SignerSpec{world.G(w.Members[0])}, d.Hash, "emit")
+			b.Tx(2)
+			got2 := new(big.Int).Sub(w.GASOf(p2.Hash), pre2)
+			gotReg := new(big.Int).Sub(w.GASOf(proxy), preReg)
+			if !tr.Halted() || got2.Int64() != amount/2 || gotReg.Sign() != 0 {
+				b.Violation(fmt.Sprintf("emit of an Alphabet contract deployed with an explicit Proxy and Netmap from the NNS: %s, the given Proxy received %s (expected %d), the Proxy registered in the NNS %s (expected 0)", tr.State, got2, amount/2, gotReg), w.RenderResult(tr, true))
+			}
+			b.Eval("emit|explicit-proxy-netmap-from-nns|"+tr.State, true)
+			b.Hit("emit-with-explicit-proxy-and-netmap-from-the-nns")
+		} else {
+			b.Inconclusive(fmt.Sprintf("second proxy / netmap record: %v", err))
+			return
+		}
+	}
 	rot := 0
 	for e := 0; e < nemits && b.NViolations() == 0; e++ {
 		ci := r.IntN(n)
